@@ -114,6 +114,7 @@ func (r c18Req) String() string { return fmt.Sprintf("%s(%s,%s,v%d)", r.op, r.na
 var c18Menu = []c18Req{
 	{"create", "a", "VK1", 1}, {"create", "a", "VK1", 2}, {"update", "a", "VK1", 3}, {"update", "a", "VK2", 4},
 	{"delete", "a", "", 0}, {"create", "b", "VK1", 5}, {"get", "a", "", 0}, {"list", "", "", 0},
+	{"update", "a", "VK1", 0}, // the configuration "a" has when it exists initially: an update that changes nothing is still a mutation
 }
 
 type c18Obs struct {
